@@ -9,22 +9,37 @@ Quantifier: any sequence of sets, gets, deletes and copies on records with chain
 The machine is `Gsu.Model.RecRules` (mirror of the rule cache of core/surecord.go; the same
 definitions the driver `drv_c35` executes).
 
-FULL STATEMENT (design name `rule_coherent`), NOT PROVED HERE:
-  for acyclic pure rules and every history of put/delete (of plain fields)/get/copy from the empty
-  record, in every reached state: for each rule field k with `lk vals k = some v` and
-  `k ∉ invalid`, v is the rule of k evaluated on the current plain fields, every field f read by
-  that rule has `k ∈ depsOf f`, and every rule field read by it is itself cached and valid;
-  hence `getN` returns the rule's value on the current fields (`get_rule_current`).
-What is proved are the parts below (`…_partial`): the two local steps of `get` (a valid cached
-value is returned unchanged; an absent or invalid rule field is recomputed by its rule, cached and
-marked valid) and the complete specification of invalidation/notification (`observers_notified`,
-`invalidate_once`). Missing for the full statement: the inductive invariant tying cached values
-to the specification evaluator across nested rule evaluation, and completeness of the depth-first
-`invalidate` (every valid transitive dependent is reached). Those are covered only by the
-correspondence run and its direct oracle (value of a rule field == rule evaluated on the current
-fields, 19 000+ checks per quick run).
+PROVED (full statement):
+  `rule_coherent`: for every acyclic unguarded rule set (acyclicity given by a rank function:
+  every field read by the rule of k has smaller rank; fuel `n` above every rank) and every history
+  of put (of plain fields), get/delete/Invalidate (of any field, incl. deleting the cached member of
+  a rule field), Copy, observer attachment from the empty record (`run n rules ops`), in the
+  reached state: for each rule field k with
+  `lk vals k = some v` and `k ∉ invalid`, v is the specification value `specN n rules (plainEnv
+  vals) k` (pure evaluation of the rule bodies on the current plain fields, independent of the
+  fuel above the rank), every field f read by the rule of k has `k ∈ depsOf f`, and every rule field
+  read by it is itself cached and valid.
+  `get_rule_current`: in every such state `getN n rules [] r k` of a rule field k returns
+  `some (specification value of k)` and leaves k cached with that value and valid; the plain
+  fields are not changed by a get.
+  `rule_coherent_driver`/`get_rule_current_driver`: the same for the driver's fuel (40).
+  The proof (Proofs/RecRules2–4) is an inductive invariant (coherence + soundness of recorded
+  dependents + closure of the invalid set under recorded dependents + duplicate-free invalid set),
+  shown to survive nested rule evaluation (with the fields under evaluation exempted) and the
+  depth-first `invalidate` (which, with fuel above the ranks, reaches every transitive dependent).
+EXCLUDED BY HYPOTHESIS (and why):
+  * guarded rules (`guard = some _`, a rule that may yield nothing): coherence is FALSE for them,
+    `rule_coherent_guard_counter` — when the guard fails `callRule` has already removed the field
+    from the invalid set and stores nothing, so the previous, stale value counts as valid and is
+    returned; the value then depends on the history, not only on the current plain fields.
+  * put of a rule field: assigning a rule field overrides its rule by design,
+    `rule_coherent_assign_counter`.
+  * cyclic rule sets (the active-rule check `k ∈ act` then returns the old value).
+Also kept: the one-step facts (`get_rule_cached_partial`, `get_rule_recompute_partial`, valid for
+arbitrary records, not only reachable ones) and the complete specification of
+invalidation/notification (`observers_notified`, `invalidate_once`).
 -/
-import Gsu.Proofs.RecRules
+import Gsu.Proofs.RecRules4
 namespace Gsu.Props.C35
 open Gsu.RecRules
 
@@ -102,5 +117,164 @@ example :
     let r : Rec := { vals := [(0, some 5), (1, some 2), (4, some 3)], invalid := [4] }
     (getN 5 rules [] r 4).2 = some (some 7) ∧ (getN 5 rules [] r 4).1.invalid = [] ∧
     depsOf (getN 5 rules [] r 4).1 0 = [4] := by decide
+
+/-! ### the global statement -/
+
+/-- `rule_coherent`: in every state reached from the empty record by a history of put of plain
+fields, get/delete/Invalidate of any field, Copy and observer attachment (acyclic unguarded rules,
+fuel above every rank): a cached, valid rule field holds the specification value of its rule on
+the current plain fields; every field its rule reads lists it as dependent; every rule field its
+rule reads is itself valid and cached. -/
+theorem rule_coherent (rules : Rules) (rank : Field → Nat) (n : Nat)
+    (hacyc : ∀ k rule, lk rules k = some rule → ∀ f ∈ fields rule.body, rank f < rank k)
+    (hung : ∀ k rule, lk rules k = some rule → rule.guard = none)
+    (hfuel : ∀ k, rank k < n)
+    (ops : List Op) (hops : ∀ op ∈ ops, op.ok rules) :
+    let r := run n rules ops
+    ∀ k rule v, lk rules k = some rule → lk r.vals k = some v → k ∉ r.invalid →
+      v = specN n rules (plainEnv r.vals) k ∧
+      ∀ f ∈ fields rule.body, k ∈ depsOf r f ∧
+        (lk rules f ≠ none → f ∉ r.invalid ∧ ∃ w, lk r.vals f = some w) := by
+  intro r k rule v hr hv hi
+  have ha : Acyc rules rank := ⟨hacyc, hung⟩
+  obtain ⟨h1, h2⟩ := (run_tinv ha hfuel ops hops).coh k rule v hr hv hi (by simp)
+  refine ⟨by rw [h1, specN_stable ha _ n k (hfuel k)], ?_⟩
+  intro f hf
+  refine ⟨(h2 f hf).1, ?_⟩
+  intro hne
+  cases hrf : lk rules f with
+  | none => exact absurd hrf hne
+  | some rf => exact (h2 f hf).2 rf hrf
+
+/-- `get_rule_current`: in every reachable state a get of a rule field returns the value of its
+rule on the current plain fields; afterwards the field is cached with that value and valid, and
+the plain fields are as before. -/
+theorem get_rule_current (rules : Rules) (rank : Field → Nat) (n : Nat)
+    (hacyc : ∀ k rule, lk rules k = some rule → ∀ f ∈ fields rule.body, rank f < rank k)
+    (hung : ∀ k rule, lk rules k = some rule → rule.guard = none)
+    (hfuel : ∀ k, rank k < n)
+    (ops : List Op) (hops : ∀ op ∈ ops, op.ok rules) :
+    let r := run n rules ops
+    ∀ k rule, lk rules k = some rule →
+      (getN n rules [] r k).2 = some (specN n rules (plainEnv r.vals) k) ∧
+      lk (getN n rules [] r k).1.vals k = some (specN n rules (plainEnv r.vals) k) ∧
+      k ∉ (getN n rules [] r k).1.invalid ∧
+      ∀ f, lk rules f = none → plainEnv (getN n rules [] r k).1.vals f = plainEnv r.vals f := by
+  intro r k rule hr
+  have ha : Acyc rules rank := ⟨hacyc, hung⟩
+  have hp := get_post ha hfuel (run_tinv ha hfuel ops hops) k
+  rw [specN_stable ha _ n k (hfuel k)]
+  exact ⟨hp.valr rule hr, hp.cached rule hr, hp.valid, hp.pa⟩
+
+/-- a get of a plain field in a reachable state returns the stored member (nothing if absent) -/
+theorem get_plain_current (rules : Rules) (rank : Field → Nat) (n : Nat)
+    (hacyc : ∀ k rule, lk rules k = some rule → ∀ f ∈ fields rule.body, rank f < rank k)
+    (hung : ∀ k rule, lk rules k = some rule → rule.guard = none)
+    (hfuel : ∀ k, rank k < n)
+    (ops : List Op) (hops : ∀ op ∈ ops, op.ok rules) (k : Field) (hk : lk rules k = none) :
+    ((getN n rules [] (run n rules ops) k).2).getD none = plainEnv (run n rules ops).vals k := by
+  have ha : Acyc rules rank := ⟨hacyc, hung⟩
+  exact (get_post ha hfuel (run_tinv ha hfuel ops hops) k).valp hk
+
+/-- `rule_coherent` for the fuel the driver uses -/
+theorem rule_coherent_driver (rules : Rules) (rank : Field → Nat)
+    (hacyc : ∀ k rule, lk rules k = some rule → ∀ f ∈ fields rule.body, rank f < rank k)
+    (hung : ∀ k rule, lk rules k = some rule → rule.guard = none)
+    (hfuel : ∀ k, rank k < 40)
+    (ops : List Op) (hops : ∀ op ∈ ops, op.ok rules) :
+    let r := run fuel rules ops
+    ∀ k rule v, lk rules k = some rule → lk r.vals k = some v → k ∉ r.invalid →
+      v = specN fuel rules (plainEnv r.vals) k ∧
+      ∀ f ∈ fields rule.body, k ∈ depsOf r f ∧
+        (lk rules f ≠ none → f ∉ r.invalid ∧ ∃ w, lk r.vals f = some w) :=
+  rule_coherent rules rank fuel hacyc hung hfuel ops hops
+
+/-- `get_rule_current` for the fuel the driver uses -/
+theorem get_rule_current_driver (rules : Rules) (rank : Field → Nat)
+    (hacyc : ∀ k rule, lk rules k = some rule → ∀ f ∈ fields rule.body, rank f < rank k)
+    (hung : ∀ k rule, lk rules k = some rule → rule.guard = none)
+    (hfuel : ∀ k, rank k < 40)
+    (ops : List Op) (hops : ∀ op ∈ ops, op.ok rules) :
+    let r := run fuel rules ops
+    ∀ k rule, lk rules k = some rule →
+      (getN fuel rules [] r k).2 = some (specN fuel rules (plainEnv r.vals) k) :=
+  fun k rule hr => (get_rule_current rules rank fuel hacyc hung hfuel ops hops k rule hr).1
+
+/-! ### non-vacuity: a chain of three rules -/
+
+/-- f4 := .f0 + .f1;  f5 := .f4 * .f2;  f6 := .f5 - .f4 -/
+def exRules : Rules :=
+  [(4, ⟨none, .add (.fld 0) (.fld 1)⟩), (5, ⟨none, .mul (.fld 4) (.fld 2)⟩),
+   (6, ⟨none, .sub (.fld 5) (.fld 4)⟩)]
+
+def exRank (k : Field) : Nat := if k = 4 then 1 else if k = 5 then 2 else if k = 6 then 3 else 0
+
+def exOps : List Op :=
+  [.put 0 1, .put 1 2, .put 2 3, .get 6, .obs, .put 0 5, .get 5, .inv 4, .del 1, .copy, .get 6,
+   .del 5, .get 6]
+
+theorem exRules_lk (k : Field) (rule : Rule) (h : lk exRules k = some rule) :
+    (k = 4 ∧ rule = ⟨none, .add (.fld 0) (.fld 1)⟩) ∨ (k = 5 ∧ rule = ⟨none, .mul (.fld 4) (.fld 2)⟩) ∨
+      (k = 6 ∧ rule = ⟨none, .sub (.fld 5) (.fld 4)⟩) := by
+  simp only [exRules, lk] at h
+  split at h
+  · rename_i hk; cases h; exact Or.inl ⟨hk.symm, rfl⟩
+  · split at h
+    · rename_i hk; cases h; exact Or.inr (Or.inl ⟨hk.symm, rfl⟩)
+    · split at h
+      · rename_i hk; cases h; exact Or.inr (Or.inr ⟨hk.symm, rfl⟩)
+      · cases h
+
+-- the hypotheses of `rule_coherent` are satisfiable for a chain of rules (f6 reads f5 reads f4)
+example :
+    (∀ k rule, lk exRules k = some rule → ∀ f ∈ fields rule.body, exRank f < exRank k) ∧
+    (∀ k rule, lk exRules k = some rule → rule.guard = none) ∧ (∀ k, exRank k < 40) ∧
+    (∀ op ∈ exOps, op.ok exRules) := by
+  refine ⟨?_, ?_, ?_, ?_⟩
+  · intro k rule h f hf
+    rcases exRules_lk k rule h with ⟨rfl, rfl⟩ | ⟨rfl, rfl⟩ | ⟨rfl, rfl⟩ <;>
+      simp [fields] at hf <;> rcases hf with rfl | rfl <;> decide
+  · intro k rule h
+    rcases exRules_lk k rule h with ⟨_, rfl⟩ | ⟨_, rfl⟩ | ⟨_, rfl⟩ <;> rfl
+  · intro k; unfold exRank; split <;> (try split) <;> (try split) <;> omega
+  · decide
+
+-- … and the conclusion is not trivial: the history leaves f4, f5, f6 cached and valid
+example :
+    let r := run fuel exRules exOps
+    lk r.vals 4 = some (some 5) ∧ lk r.vals 5 = some (some 15) ∧ lk r.vals 6 = some (some 10) ∧
+    r.invalid = [] ∧ depsOf r 4 = [5, 6] ∧
+    specN fuel exRules (plainEnv r.vals) 6 = some 10 := by decide
+
+/-! ### guarded rules: coherence fails -/
+
+/-- f4 := if .f0 > 0 { return .f1 }  (yields nothing when the guard fails) -/
+def guardRules : Rules := [(4, ⟨some (.fld 0), .fld 1⟩)]
+
+/-- Counter-witness for rules with a guard (a rule that may yield nothing): two histories that end
+with the same plain fields (f0 = 0, f1 = 7). In the first, f4 was computed (5) while the guard
+held; then f0 := 0 and f1 := 7 invalidate it, and the next get finds the guard false: `callRule`
+has already removed f4 from the invalid set and stores nothing, so the stale 5 is returned, is
+cached and counts as valid from then on — although the rule body on the current fields is 7
+and a fresh record with the same fields yields nothing for f4. -/
+theorem rule_coherent_guard_counter :
+    let opsA : List Op := [.put 0 1, .put 1 5, .get 4, .put 0 0, .put 1 7, .get 4]
+    let opsB : List Op := [.put 0 0, .put 1 7, .get 4]
+    let rA := run fuel guardRules opsA
+    let rB := run fuel guardRules opsB
+    (∀ op ∈ opsA ++ opsB, op.ok guardRules) ∧
+    plainEnv rA.vals 0 = plainEnv rB.vals 0 ∧ plainEnv rA.vals 1 = plainEnv rB.vals 1 ∧
+    lk rA.vals 4 = some (some 5) ∧ 4 ∉ rA.invalid ∧
+    (getN fuel guardRules [] rA 4).2 = some (some 5) ∧
+    (getN fuel guardRules [] rB 4).2 = none ∧
+    specE (plainEnv rA.vals) (.fld 1) = some 7 := by decide
+
+/-- Counter-witness for `put` on a rule field (excluded by `Op.ok`): the assigned value overrides
+the rule (by design) until a dependency changes. -/
+theorem rule_coherent_assign_counter :
+    let rules : Rules := [(4, ⟨none, .fld 0⟩)]
+    let r := run fuel rules [.put 0 1, .put 4 9]
+    lk r.vals 4 = some (some 9) ∧ 4 ∉ r.invalid ∧ specN fuel rules (plainEnv r.vals) 4 = some 1 := by
+  decide
 
 end Gsu.Props.C35
